@@ -27,3 +27,16 @@
           (ite (or (= (select T (+ o (- k 1))) 0)
                    (matches_from AT AV ao 0 an (select T (+ o (- k 1))) (select V (+ o (- k 1)))))
                0 1))))
+; reflect.Value v = (typ, ptr, flag): is it the zero Value? what interface value does it hold?
+(declare-fun rv_valid (Int Int Int) Bool)
+(declare-fun rv_src_t (Int Int Int) Int)
+(declare-fun rv_src_v (Int Int Int) Int)
+; strings.ToLower on string identities; the name a Method reports
+(declare-fun str_lower (Int) Int)
+(declare-fun method_name (Int Int) Int)
+(declare-fun rv_type (Int Int Int) Int)
+(declare-fun type_numin (Int) Int)
+(declare-fun type_variadic (Int) Bool)
+(declare-fun method_missing (Int Int) Bool)
+(declare-fun method_passctx (Int Int) Bool)
+(declare-fun method_reterr (Int Int) Bool)
